@@ -4350,3 +4350,285 @@ func ruleDiscriminator(c *Ctx, r *Rep) {
 		r.Undecided("discriminator:census", token.NoPos, "no emptiness test on a grammar-fed field in the printer")
 	}
 }
+
+// ---------------------------------------------------------------------------------------------------------------------
+// C20: caches and capture buffers that live as long as a run are bounded.
+
+func init() {
+	reg(&Rule{ID: "R-C20-cachebound", Props: []string{"C20", "C06"}, Floor: 1,
+		Doc: "a native that stores into a cache which lives as long as the compiled query (a sync.Map) does so under a size test against a constant, or evicts (Clear/Delete) in the same function: the key can be computed from the input, so `range(infinite) | tostring | test(.)` would otherwise retain one compiled regexp per output",
+		Run: ruleCacheBound})
+	reg(&Rule{ID: "R-C20-capturetrim", Props: []string{"C20", "C16"}, Floor: 2,
+		Doc: "an input iterator that reads through the capturing reader (the copy of a non-seekable input kept for error excerpts) gives the captured bytes back as it goes: its Next, or what Next calls, trims the capture buffer — otherwise `inputs` over a pipe retains the whole input",
+		Run: ruleCaptureTrim})
+	addDecided("C20", " The per-query regexp cache stores under a size test (R-C20-cachebound; D43); input iterators over the capturing reader trim the capture (R-C20-capturetrim; YAML input from a pipe: known finding D44).")
+}
+
+func ruleCacheBound(c *Ctx, r *Rep) {
+	info := c.Gojq.TypesInfo
+	n := 0
+	for _, fd := range c.Decls(c.Gojq) {
+		walkStack(fd.Body, func(m ast.Node, stack []ast.Node) bool {
+			call, ok := m.(*ast.CallExpr)
+			if !ok || calleeName(info, call) != "sync.Map.Store" {
+				return true
+			}
+			n++
+			key := "cachebound:" + declKey(fd)
+			bounded := ""
+			for _, anc := range stack {
+				ifs, ok := anc.(*ast.IfStmt)
+				if !ok || !(call.Pos() >= ifs.Body.Pos() && call.End() <= ifs.Body.End()) {
+					continue
+				}
+				ast.Inspect(ifs.Cond, func(q ast.Node) bool {
+					b, ok := q.(*ast.BinaryExpr)
+					if !ok {
+						return true
+					}
+					switch b.Op {
+					case token.LSS, token.LEQ, token.GTR, token.GEQ:
+						_, okx := constInt(info, b.X)
+						_, oky := constInt(info, b.Y)
+						if okx != oky {
+							bounded = c.Src(ifs.Cond)
+						}
+					}
+					return true
+				})
+			}
+			evicts := false
+			ast.Inspect(fd.Body, func(q ast.Node) bool {
+				if cl, ok := q.(*ast.CallExpr); ok {
+					switch calleeName(info, cl) {
+					case "sync.Map.Clear", "sync.Map.Delete", "sync.Map.LoadAndDelete", "sync.Map.CompareAndDelete":
+						evicts = true
+					}
+				}
+				return true
+			})
+			switch {
+			case bounded != "":
+				r.OK(key, call.Pos(), "%s stores into the cache only under `%s`", declKey(fd), bounded)
+			case evicts:
+				r.OK(key, call.Pos(), "%s evicts from the cache it stores into", declKey(fd))
+			default:
+				r.Bad(key, call.Pos(), "%s stores into a cache that lives as long as the compiled query, without a size test and without eviction: a key computed from the input (`range(infinite) | tostring | test(.)`) makes the retained state grow with the number of outputs consumed — 49,549 live heap objects after 5,000 outputs, 376,070 after 40,000", declKey(fd))
+			}
+			return true
+		})
+	}
+	if n == 0 {
+		r.Undecided("cachebound:census", token.NoPos, "no store into a sync.Map in package gojq (compileRegexp has one)")
+	}
+}
+
+func ruleCaptureTrim(c *Ctx, r *Rep) {
+	p := c.Cli
+	info := p.TypesInfo
+	// the capture buffer: a *bytes.Buffer field of the reader type that wraps the input
+	isCaptureBuf := func(e ast.Expr) bool {
+		sel, ok := unparen(e).(*ast.SelectorExpr)
+		if !ok {
+			return false
+		}
+		f, ok := info.Uses[sel.Sel].(*types.Var)
+		if !ok || !f.IsField() {
+			return false
+		}
+		pt, ok := f.Type().(*types.Pointer)
+		return ok && isNamed(pt.Elem(), "bytes", "Buffer")
+	}
+	trims := map[*ast.FuncDecl]bool{}
+	bufVar := map[types.Object]bool{}
+	for _, fd := range c.Decls(p) {
+		// locals bound to the capture buffer: if buf := i.ir.buf; …
+		ast.Inspect(fd.Body, func(m ast.Node) bool {
+			if as, ok := m.(*ast.AssignStmt); ok && len(as.Lhs) == len(as.Rhs) {
+				for i, rhs := range as.Rhs {
+					if isCaptureBuf(rhs) {
+						if id, ok := as.Lhs[i].(*ast.Ident); ok {
+							bufVar[info.ObjectOf(id)] = true
+						}
+					}
+				}
+			}
+			return true
+		})
+		ast.Inspect(fd.Body, func(m ast.Node) bool {
+			call, ok := m.(*ast.CallExpr)
+			if !ok {
+				return true
+			}
+			switch calleeName(info, call) {
+			case "bytes.Buffer.Next", "bytes.Buffer.Reset", "bytes.Buffer.Truncate":
+				if sel, ok := call.Fun.(*ast.SelectorExpr); ok {
+					if isCaptureBuf(sel.X) {
+						trims[fd] = true
+					}
+					if id, ok := unparen(sel.X).(*ast.Ident); ok && bufVar[info.ObjectOf(id)] {
+						trims[fd] = true
+					}
+				}
+			}
+			return true
+		})
+	}
+	// iterator types holding the capturing reader
+	n := 0
+	for _, fd := range c.Decls(p) {
+		if fd.Name.Name != "Next" || fd.Recv == nil {
+			continue
+		}
+		tn := recvTypeName(fd)
+		obj := p.Types.Scope().Lookup(tn)
+		if obj == nil {
+			continue
+		}
+		st, ok := obj.Type().Underlying().(*types.Struct)
+		if !ok {
+			continue
+		}
+		holds := false
+		for i := 0; i < st.NumFields(); i++ {
+			if pt, ok := st.Field(i).Type().(*types.Pointer); ok {
+				if nt := namedOf(pt.Elem()); nt != nil {
+					if s2, ok := nt.Underlying().(*types.Struct); ok {
+						for j := 0; j < s2.NumFields(); j++ {
+							if bp, ok := s2.Field(j).Type().(*types.Pointer); ok && isNamed(bp.Elem(), "bytes", "Buffer") {
+								holds = true
+							}
+						}
+					}
+				}
+			}
+		}
+		if !holds {
+			continue
+		}
+		n++
+		// Next or a function of the package it calls trims
+		ok2 := trims[fd]
+		ast.Inspect(fd.Body, func(m ast.Node) bool {
+			if call, ok := m.(*ast.CallExpr); ok {
+				if f, ok := callee(info, call).(*types.Func); ok && f.Pkg() == p.Types {
+					for d, t := range trims {
+						if t && info.Defs[d.Name] == f {
+							// a helper that trims only on the error path (getContents re-reads) does not count: it must be the
+							// window reset, i.e. called on the success path — decided by name-independent shape: the helper itself
+							// is not the excerpt builder (returns no string)
+							if d.Type.Results == nil || len(d.Type.Results.List) == 0 {
+								ok2 = true
+							}
+						}
+					}
+				}
+			}
+			return true
+		})
+		r.Check(ok2, "capturetrim:"+tn, fd.Pos(), "%s.Next gives captured bytes of a non-seekable input back as it goes (trims the capture buffer): %v — otherwise the whole input read so far is retained for the error excerpt, and `inputs` over a pipe grows with the number of values", tn, ok2)
+	}
+	if n == 0 {
+		r.Undecided("capturetrim:census", token.NoPos, "no input iterator holds the capturing reader")
+	}
+}
+
+// ---------------------------------------------------------------------------------------------------------------------
+// R-C01-binddepth: a construct that names something for its body opens a scope depth for the name.
+
+func init() {
+	reg(&Rule{ID: "R-C01-binddepth", Props: []string{"C01"}, Floor: 3,
+		Doc: "a lowering function that introduces a named variable with pushVariable — which hands out the slot of an existing variable of the same name at the same scope depth — and then compiles a body in which the name is visible has opened a scope depth (newScopeDepth) or a function scope (newScope) first, unless it is the root of a compilation: otherwise a nested binding of the same name takes over the slot that closures compiled against the outer binding read (`label $a | def f: break $a; … | label $a | f`)",
+		Run: ruleBindDepth})
+	addDecided("C01", " A named binding for a body is made at a scope depth of its own (R-C01-binddepth; D45).")
+}
+
+func ruleBindDepth(c *Ctx, r *Rep) {
+	info := c.Gojq.TypesInfo
+	n := 0
+	for _, fd := range c.Decls(c.Gojq) {
+		if recvTypeName(fd) != "compiler" || fd.Name.Name == "compilePattern" || fd.Name.Name == "initPatternVariables" {
+			continue // the pattern helpers bind for their callers, which are held to the rule below
+		}
+		var pushes []*ast.CallExpr
+		var opens []token.Pos
+		var bodies []token.Pos
+		ast.Inspect(fd.Body, func(m ast.Node) bool {
+			call, ok := m.(*ast.CallExpr)
+			if !ok {
+				return true
+			}
+			switch calleeName(info, call) {
+			case "gojq.compiler.pushVariable":
+				pushes = append(pushes, call)
+			case "gojq.compiler.newScopeDepth", "gojq.compiler.newScope":
+				opens = append(opens, call.Pos())
+			case "gojq.compiler.compileQuery", "gojq.compiler.compile":
+				bodies = append(bodies, call.Pos())
+			}
+			return true
+		})
+		for _, p := range pushes {
+			// a body compiled after the binding, in the same function
+			after := false
+			for _, b := range bodies {
+				if b > p.Pos() {
+					after = true
+				}
+			}
+			if !after {
+				continue // the binding is made for a caller (compilePattern, initPatternVariables, compileImport): the caller's obligation
+			}
+			n++
+			key := fmt.Sprintf("binddepth:%s:%s", declKey(fd), c.Src(p))
+			opened := false
+			for _, o := range opens {
+				if o < p.Pos() {
+					opened = true
+				}
+			}
+			root := fd.Name.Name == "compile" || fd.Name.Name == "Compile"
+			switch {
+			case opened:
+				r.OK(key, p.Pos(), "%s opens a scope before it binds the name its body sees", declKey(fd))
+			case root:
+				r.OK(key, p.Pos(), "%s is the root of a compilation: no enclosing binding exists", declKey(fd))
+			default:
+				r.Bad(key, p.Pos(), "%s binds a name with pushVariable and compiles a body under it without opening a scope depth first: a binding of the same name nested in the body at the same depth is given the same slot, so a closure compiled against the outer binding reads the inner one — `[label $a | def f: break $a; (1,2) | label $a | ., f]` yields [1,2], jq [1]", declKey(fd))
+			}
+		}
+	}
+	// callers of the helpers that bind for them: compilePattern / initPatternVariables are called after the caller opened a depth
+	for _, helper := range []string{"gojq.compiler.compilePattern", "gojq.compiler.initPatternVariables"} {
+		for _, fd := range c.Decls(c.Gojq) {
+			if recvTypeName(fd) != "compiler" || "gojq.compiler."+fd.Name.Name == helper {
+				continue
+			}
+			var first token.Pos
+			ast.Inspect(fd.Body, func(m ast.Node) bool {
+				if call, ok := m.(*ast.CallExpr); ok && calleeName(info, call) == helper && !first.IsValid() {
+					first = call.Pos()
+				}
+				return true
+			})
+			if !first.IsValid() || fd.Name.Name == "compilePattern" {
+				continue
+			}
+			n++
+			opened := false
+			ast.Inspect(fd.Body, func(m ast.Node) bool {
+				if call, ok := m.(*ast.CallExpr); ok && call.Pos() < first {
+					switch calleeName(info, call) {
+					case "gojq.compiler.newScopeDepth", "gojq.compiler.newScope":
+						opened = true
+					}
+				}
+				return true
+			})
+			r.Check(opened, fmt.Sprintf("binddepth:%s:%s", declKey(fd), strings.TrimPrefix(helper, "gojq.compiler.")), first, "%s opens a scope depth before it lets %s bind the pattern's names: %v", declKey(fd), strings.TrimPrefix(helper, "gojq.compiler."), opened)
+		}
+	}
+	if n == 0 {
+		r.Undecided("binddepth:census", token.NoPos, "no named binding for a body found in the compiler")
+	}
+}
